@@ -217,6 +217,17 @@ def history_case(case):
             marks.append(ev)
             if ev in ("twice", "verbose"):
                 continue
+            if ev == "worker":
+                # the decorated, not yet fitted model is sent to a joblib worker (cloudpickle) and trained there
+                from mc import transport
+                try:
+                    model = transport.roundtrip(model, "cloudpickle")
+                except Exception:  # noqa
+                    # a decorated model that cannot be serialised cannot be trained elsewhere: nothing to judge (on the unchanged tree the
+                    # decorations are closures named after the methods they wrap, which pickle refuses)
+                    klass._compute_grads = real
+                    return {"v": [], "nt": [], "stats": {"evals": 0, "transport_unavailable": 1}, "sample": {"config": where}}
+                continue
             if ev == "setbs":
                 if late_bs is not None:
                     model.set_params(batch_size=late_bs)
@@ -272,7 +283,7 @@ def explorers(tier, seed):
     for family in TRAIN_MODELS + ["SparseMLPModel"]:
         for gemini in ("mmd_ova", "mi"):
             for bs in ([None] if family == "CategoricalModel" else [2, None]):
-                hists = [("fit", "fit"), ("fit", "query", "fit"), ("fit", "fit", "fit"), ("twice", "fit"), ("twice", "fit", "fit"), ("verbose", "fit"), ("verbose", "twice", "fit"), ("setbs", "fit"), ("fit", "setbs", "fit")] + ([("path",), ("fit", "path"), ("path", "fit")] if family in M.SPARSE else [])
+                hists = [("fit", "fit"), ("fit", "query", "fit"), ("fit", "fit", "fit"), ("twice", "fit"), ("twice", "fit", "fit"), ("verbose", "fit"), ("verbose", "twice", "fit"), ("setbs", "fit"), ("fit", "setbs", "fit"), ("worker", "fit"), ("twice", "worker", "fit"), ("fit", "worker", "fit")] + ([("path",), ("fit", "path"), ("path", "fit")] if family in M.SPARSE else [])
                 for h in hists:
                     c4.append((family, 3.0, bs, gemini, h, seed))
     return [
